@@ -52,7 +52,8 @@ structure PoolCfg where
   prefixLen : UInt8
   gateway : UInt32
   dns : List UInt32
-  leaseSecs : UInt32
+  leaseSecs : UInt32     -- `uint32(pool.LeaseTime.Seconds())`: what the cache and option 51 carry
+  leaseSubMs : Nat := 0  -- the rest of `pool.LeaseTime` below a whole second, in ms (only ExpiresAt sees it)
   vlanId : UInt32 := 0
   clientClass : UInt8 := 0
 
@@ -222,7 +223,8 @@ def Srv.ack (s : Srv) (mac : Bytes) (ip : UInt32) (relayed : Bool) (reqCid : Opt
   | none => s        -- "pool not found": NAK, unreachable after an ACK decision
   | some p =>
     let l : Lease :=
-      { mac := mac, ip := ip, poolId := p.id, exp := s.now + p.leaseSecs.toNat, expMs := s.subMs,
+      { mac := mac, ip := ip, poolId := p.id, exp := s.now + p.leaseSecs.toNat + (s.subMs + p.leaseSubMs) / 1000,
+        expMs := (s.subMs + p.leaseSubMs) % 1000,
         cid := newCid ex reqCid }
     s.commit p l (staleCid s.byCid ex l)
 
